@@ -73,3 +73,36 @@ macro_rules! validate_except_dict_key {
 validate_except_dict_key!(c06_validate_len4_xkey, 4, 7);
 validate_except_dict_key!(c06_validate_len5_xkey, 5, 8);
 validate_except_dict_key!(c06_validate_len6_xkey, 6, 9);
+
+validate_all!(c06_validate_len1, 1, 4);
+
+/// Template strings with one fully symbolic byte: every byte value at the marked position.
+macro_rules! template1 {
+    ($h:ident, $tmpl:expr, $at:expr, $U:expr) => {
+        #[kani::proof]
+        #[kani::unwind($U)]
+        #[kani::stub(alloc::fmt::format, no_format)]
+        fn $h() {
+            let mut buf = *$tmpl;
+            buf[$at] = kani::any();
+            let s = &buf[..];
+            let r = validate(s);
+            let real = r.is_ok();
+            core::mem::forget(r);
+            let r2 = Signature::from_bytes(s);
+            let real2 = r2.is_ok();
+            if let Ok(sig) = &r2 {
+                assert!(sig.string_len() == s.len() || (s.len() > 1 && sig.string_len() == s.len() + 2), "string_len differs from the parsed text");
+            }
+            core::mem::forget(r2);
+            let model = valid(s, &lim());
+            kani::cover!(real, "accepted");
+            kani::cover!(!real, "rejected");
+            assert!(real == model, "validate(): acceptance differs from the D-Bus grammar");
+            assert!(real2 == model, "from_bytes(): acceptance differs from the D-Bus grammar");
+        }
+    };
+}
+template1!(c06_tmpl_a_x, b"a?", 1, 6);
+template1!(c06_tmpl_struct_x, b"(?)", 1, 7);
+template1!(c06_tmpl_dict_val, b"a{s?}", 4, 9);
